@@ -30,6 +30,26 @@ var repoDir = "/repo"
 
 var replayTemplates = []*replayTemplate{
 	{
+		name: "xreq_send_after_close.go.tmpl",
+		match: func(o *Obligation) bool {
+			return o.Kind == "post" && o.Func == "(*protocol/xreq.socket).SendMsg" && strings.Contains(o.Note, "cl ==> result == protocol.ErrClosed")
+		},
+		run: func(g *Gen, o *Obligation, model map[string]string) (bool, string) {
+			// fixed history: Close, SetOption(WriteQLen, 64), 40 Sends
+			return runReplay("protocol/xreq", "xreq_send_after_close.go.tmpl", map[string]string{}, "TestZZReplayXReqSendAfterClose")
+		},
+	},
+	{
+		name: "sub_readqlen_zero.go.tmpl",
+		match: func(o *Obligation) bool {
+			return o.Kind == "lock.block" && o.Func == "(*protocol/sub.pipe).receiver" && strings.Contains(o.Name, ":block:send:")
+		},
+		run: func(g *Gen, o *Obligation, model map[string]string) (bool, string) {
+			// fixed history: ReadQLen 0, one matching message while nobody is in Recv, then Close
+			return runReplay("protocol/sub", "sub_readqlen_zero.go.tmpl", map[string]string{}, "TestZZReplaySubReadQLenZero")
+		},
+	},
+	{
 		name: "wss_listen_nil_tlsconfig.go.tmpl",
 		match: func(o *Obligation) bool {
 			return o.Kind == "safe.nil" && o.Func == "(*transport/ws.listener).Listen"
